@@ -2296,7 +2296,41 @@ fn gen_c16(thorough: bool, _rng: &mut Rng, emit: &mut dyn FnMut(&str, Vec<String
     }
 }
 
+/// Every error code the endpoint puts on the wire when it refuses a stream or closes the
+/// connection, provoked by a raw peer (the codes are judged against the registry).
+fn gen_c16_codes(emit: &mut dyn FnMut(&str, Vec<String>)) {
+    let f = |fields: &[(&str, &str)]| {
+        let v: Vec<(Vec<u8>, Vec<u8>)> =
+            fields.iter().map(|(k, v)| (k.as_bytes().to_vec(), v.as_bytes().to_vec())).collect();
+        hx(&wire::headers_frame(&v))
+    };
+    let no_protocol = f(&[(":method", "CONNECT"), (":scheme", "https"), (":authority", "localhost"), (":path", "/")]);
+    let get = f(&[(":method", "GET"), (":scheme", "https"), (":authority", "localhost"), (":path", "/")]);
+    let scripts: Vec<String> = vec![
+        format!("std_settings;req:{no_protocol}"),       // H3_MESSAGE_ERROR on the stream
+        format!("std_settings;req:{get}"),               // H3_REQUEST_REJECTED on the stream
+        "std_settings;uni:3f".to_string(),               // H3_STREAM_CREATION_ERROR on the stream
+        "uni:02;uni:02".to_string(),                     // H3_STREAM_CREATION_ERROR (duplicate critical stream)
+        "ctrl:00000161".to_string(),                     // H3_FRAME_UNEXPECTED
+        "ctrl:00210100".to_string(),                     // H3_MISSING_SETTINGS
+        "ctrl:00040408010801".to_string(),               // H3_SETTINGS_ERROR
+        "unifin:00".to_string(),                         // H3_CLOSED_CRITICAL_STREAM
+        "std_settings;reqfin:01".to_string(),            // H3_FRAME_ERROR
+        "std_settings;req:005001".to_string(),           // H3_EXCESSIVE_LOAD
+        "std_settings;uni:405401".to_string(),           // H3_ID_ERROR
+        "std_settings;req:0103000080".to_string(),       // QPACK_DECOMPRESSION_FAILED
+        "std_settings;std_request;wait:100;more:1:0006684303000001".to_string(), // H3_DATAGRAM_ERROR (short capsule)
+        "std_settings;std_request;wait:100;fin:1".to_string(), // H3_NO_ERROR after a clean close
+    ];
+    for sc in scripts {
+        for rt in RTS {
+            emit("rules", vec![s(rt), s("server"), sc.clone()]);
+        }
+    }
+}
+
 fn gen_c16_round(emit: &mut dyn FnMut(&str, Vec<String>)) {
+    gen_c16_codes(emit);
     for side in SIDES {
         for scenario in ["connect_accept", "connect_reject", "streams", "dgram"] {
             for rt in RTS {
